@@ -24,94 +24,126 @@ Require Import Ctpg.Proofs.CapFormula.
 Require Import Ctpg.Proofs.CapFormulaValid.
 Require Import Ctpg.Proofs.CapFormulaTree.
 Require Import Ctpg.Proofs.CapFormulaCex.
+Require Import Ctpg.Model.Containers.
+Require Import Ctpg.Proofs.ContainersVec.
 From Coq Require Import Permutation.
+
+(* stdex::cvector<T,N> (array + size, the word-level mirror of Model/Containers.v tied to the real template by kernel-checked observations): for EVERY sequence of push_back / pop_back / clear / erase operations its contents are those of the list specification bounded by N - a push beyond the capacity changes nothing *)
+Theorem C12_cvector_is_a_bounded_list_for_every_operation_sequence :
+  forall (A : Type) (cap : N) (d : A) (ops : list (cv_op A)), cv_abs (cv_run cap d ops) = fold_left (lv_step cap) ops [].
+Proof. exact @cv_run_refines. Qed.
+Print Assumptions C12_cvector_is_a_bounded_list_for_every_operation_sequence.
+
+(* push_back / emplace_back throw exactly when the vector holds N elements (never earlier, never silently later) *)
+Theorem C12_cvector_overflow_is_loud_exactly_when_full :
+  forall (A : Type) (c : cvector A) (x : A), cv_wf c -> cv_push c x = Throw <-> length (cv_abs c) = N.to_nat (cv_cap c).
+Proof. exact @cv_push_throws_iff_full. Qed.
+Print Assumptions C12_cvector_overflow_is_loud_exactly_when_full.
+
+(* an accepted push writes inside the array and appends exactly that element *)
+Theorem C12_cvector_push_never_writes_outside_the_array :
+  forall (A : Type) (c c' : cvector A) (x : A), cv_wf c -> cv_push c x = Ok c' -> N.to_nat (cv_size c) < length (cv_data c) /\ cv_wf c' /\ cv_abs c' = cv_abs c ++ [x].
+Proof. exact @cv_push_in_bounds. Qed.
+Print Assumptions C12_cvector_push_never_writes_outside_the_array.
+
+(* stdex::cqueue<T,N> (ring buffer): for every sequence of push / pop its contents are those of a FIFO list bounded by N *)
+Theorem C12_cqueue_is_a_bounded_fifo_for_every_operation_sequence :
+  forall (A : Type) (cap : N) (d : A) (ops : list (cq_op A)), cq_abs (cq_run cap d ops) = fold_left (lq_step cap) ops [].
+Proof. exact @cq_run_refines. Qed.
+Print Assumptions C12_cqueue_is_a_bounded_fifo_for_every_operation_sequence.
+
+(* push throws exactly when the queue holds N elements *)
+Theorem C12_cqueue_overflow_is_loud_exactly_when_full :
+  forall (A : Type) (q : cqueue A) (x : A), cq_wf q -> cq_push q x = Throw <-> length (cq_abs q) = N.to_nat (cq_cap q).
+Proof. exact @cq_push_throws_iff_full. Qed.
+Print Assumptions C12_cqueue_overflow_is_loud_exactly_when_full.
 
 (* for every pattern the builder creates exactly the states the size analyser predicts and returns the predicted slice *)
 Theorem C12_dfa_size :
   forall (r : regex) (sm sm' : dfa) (s : slice), build r sm = Some (sm', s) -> let '(sl, sz) := analyze_size r (length sm) in length sm' = sz /\ s = sl.
-Proof. exact build_size. Qed.
+Proof. exact @build_size. Qed.
 Print Assumptions C12_dfa_size.
 
 (* regex::expr: automaton size = analyser result *)
 Theorem C12_expr_size :
   forall (r : regex) (sm : dfa), build_expr r = Some sm -> length sm = sl_n (fst (analyze_size r 0)).
-Proof. exact build_expr_size. Qed.
+Proof. exact @build_expr_size. Qed.
 Print Assumptions C12_expr_size.
 
 (* term-set lexer: automaton size = sum of the per-term sizes *)
 Theorem C12_lexer_size :
   forall (ts : list term_data) (sm : dfa), create_lexer ts = Some sm -> length sm = list_sum (map term_size ts).
-Proof. exact create_lexer_size. Qed.
+Proof. exact @create_lexer_size. Qed.
 Print Assumptions C12_lexer_size.
 
 (* a non-empty string term needs 2 * length states *)
 Theorem C12_string_term_size :
   forall s : list nat, s <> [] -> term_size (TString s) = 2 * length s.
-Proof. exact string_term_size. Qed.
+Proof. exact @string_term_size. Qed.
 Print Assumptions C12_string_term_size.
 
 (* REFUTED corner: string_term("") creates 2 states although its declared dfa_size is 0 *)
 Theorem C12_empty_string_term_refuted :
   term_size (TString []) = 2 /\ term_size (TString []) <> 2 * length (@nil nat).
-Proof. exact empty_string_term_size_mismatch. Qed.
+Proof. exact @empty_string_term_size_mismatch. Qed.
 Print Assumptions C12_empty_string_term_refuted.
 
 (* every transition target of a built automaton is a state of it *)
 Theorem C12_transition_targets_in_range :
   forall (r : regex) (sm : dfa), build_expr r = Some sm -> forall (q : nat) (d : dstate) (c t : nat), nth_error sm q = Some d -> nth c (d_trans d) None = Some t -> t < length sm.
-Proof. exact build_expr_targets. Qed.
+Proof. exact @build_expr_targets. Qed.
 Print Assumptions C12_transition_targets_in_range.
 
 (* the recursive in-place merge terminates within the model's fuel bound *)
 Theorem C12_merge_terminates :
   forall (sm : dfa) (to from : nat) (keep mark : bool), closed sm -> to < length sm -> from < length sm -> merge (merge_fuel sm) sm to from keep mark <> None.
-Proof. exact merge_terminates. Qed.
+Proof. exact @merge_terminates. Qed.
 Print Assumptions C12_merge_terminates.
 
 (* hence the builder never gives up: every pattern gets an automaton *)
 Theorem C12_builder_total :
   forall r : regex, build_expr r <> None.
-Proof. exact build_expr_total. Qed.
+Proof. exact @build_expr_total. Qed.
 Print Assumptions C12_builder_total.
 
 (* a duplicate-free list of well-formed items is no longer than the item address space *)
 Theorem C12_items_fit :
   forall g : grammar, GenWf.wfx_facts g -> forall l : list item, NoDup l -> Forall (item_okP g) l -> length l <= address_space g.
-Proof. exact items_length_bound. Qed.
+Proof. exact @items_length_bound. Qed.
 Print Assumptions C12_items_fit.
 
 (* the model's EmptyRulesCount is the number of rules written with an empty right side *)
 Theorem C12_cstring_stack_formula_is_the_dsl_count :
   forall (rg : raw_grammar) (g : grammar), analyze rg = Some g -> empty_rules g = empty_right_sides g /\ empty_rules g = length (filter (fun r : raw_rule => match rr_r r with | [] => true | _ :: _ => false end) (rg_rules rg)).
-Proof. exact analyze_empty_rules. Qed.
+Proof. exact @analyze_empty_rules. Qed.
 Print Assumptions C12_cstring_stack_formula_is_the_dsl_count.
 
 (* STACK CAPACITY for cstring_buffer: for a grammar without empty rules and a table without error-symbol shifts the capacity N + EmptyRulesCount + 1 suffices for EVERY input, functors, options and lexer: the run equals the unbounded run and never throws (pure counting: every shift consumes a byte, every reduction pops before it pushes) *)
 Theorem C12_cstring_capacity_suffices_without_empty_rules_and_recovery :
-  forall (V C : Type) (g : grammar) (tbl : LRGen.table) (opts : options) (buf : list nat) (lexer : bool -> spoint -> list nat -> list lex_event * option (nat * nat)) (term_f : nat -> nat -> nat -> spoint -> V) (err_f : spoint -> V) (rule_f : nat -> C -> list V -> C * V), empty_rules g = 0 -> DriverBasics.eof_err_not_shifted g tbl -> no_shifterrb tbl = true -> lexer_in_range lexer -> forall (fuel : nat) (c : C), run V C g tbl opts buf (Some (cstring_cap g (length buf))) lexer term_f err_f rule_f fuel c = run V C g tbl opts buf None lexer term_f err_f rule_f fuel c /\ fst (fst (run V C g tbl opts buf (Some (cstring_cap g (length buf))) lexer term_f err_f rule_f fuel c)) <> Throw.
-Proof. exact cstring_capacity_suffices_without_empty_rules. Qed.
+  forall (V C : Type) (g : grammar) (tbl : LRGen.table) (opts : options) (buf : list nat) (lexer : bool -> spoint -> list nat -> list lex_event * option (nat * nat)) (term_f : nat -> nat -> nat -> spoint -> V) (err_f : spoint -> V) (rule_f : nat -> C -> list V -> C * V), empty_rules g = 0 -> DriverBasics.eof_err_not_shifted g tbl -> no_shifterrb tbl = true -> lexer_in_range lexer -> forall (fuel : nat) (c : C), run V C g tbl opts buf (Some (cstring_cap g (length buf))) lexer term_f err_f rule_f fuel c = run V C g tbl opts buf None lexer term_f err_f rule_f fuel c /\ fst (fst (run V C g tbl opts buf (Some (cstring_cap g (length buf))) lexer term_f err_f rule_f fuel c)) <> Driver.Throw.
+Proof. exact @cstring_capacity_suffices_without_empty_rules. Qed.
 Print Assumptions C12_cstring_capacity_suffices_without_empty_rules_and_recovery.
 
 (* REFUTED in general (known finding D8): S -> A A A A A A b, A -> empty, input b: validated table, the unbounded run accepts, the run with the library's capacity 4 throws *)
 Theorem C12_cstring_capacity_formula_refuted_by_empty_reductions :
-  analyze d8_raw = Some d8_g /\ (exists sts : list lrstate, gen d8_g = inl (sts, d8_tbl)) /\ validate d8_g (sts_of d8_g) d8_tbl = true /\ LRSound.tokens_ok d8_g [0] /\ cstring_cap d8_g (length [0]) = 4 /\ res (tree_run_cap d8_g d8_tbl None [0] 20) = Accept d8_tree /\ tree_run d8_g d8_tbl [0] 20 = Accept d8_tree /\ res (tree_run_cap d8_g d8_tbl (Some (cstring_cap d8_g (length [0]))) [0] 20) = Throw.
-Proof. exact cstring_capacity_formula_refuted. Qed.
+  analyze d8_raw = Some d8_g /\ (exists sts : list lrstate, gen d8_g = inl (sts, d8_tbl)) /\ validate d8_g (sts_of d8_g) d8_tbl = true /\ LRSound.tokens_ok d8_g [0] /\ cstring_cap d8_g (length [0]) = 4 /\ CapFormulaCex.res (tree_run_cap d8_g d8_tbl None [0] 20) = Accept d8_tree /\ tree_run d8_g d8_tbl [0] 20 = Accept d8_tree /\ CapFormulaCex.res (tree_run_cap d8_g d8_tbl (Some (cstring_cap d8_g (length [0]))) [0] 20) = Driver.Throw.
+Proof. exact @cstring_capacity_formula_refuted. Qed.
 Print Assumptions C12_cstring_capacity_formula_refuted_by_empty_reductions.
 
 (* the least capacity that works for that input is 8 *)
 Theorem C12_least_sufficient_capacity_of_that_input :
-  max_height tree unit d8_g d8_tbl tree_opts [0] id_lexer (fun (t _ _ : nat) (_ : spoint) => Leaf t) (fun _ : spoint => Leaf (err_idx d8_g)) (fun (r : nat) (c : unit) (args : list tree) => (c, Node r args)) 20 tt = 8 /\ (forall n : nat, (n < 8 -> res (tree_run_cap d8_g d8_tbl (Some n) [0] 20) = Throw) /\ (8 <= n -> tree_run_cap d8_g d8_tbl (Some n) [0] 20 = tree_run_cap d8_g d8_tbl None [0] 20 /\ res (tree_run_cap d8_g d8_tbl (Some n) [0] 20) = Accept d8_tree)).
-Proof. exact d8_min_capacity. Qed.
+  max_height tree unit d8_g d8_tbl tree_opts [0] id_lexer (fun (t _ _ : nat) (_ : spoint) => Leaf t) (fun _ : spoint => Leaf (err_idx d8_g)) (fun (r : nat) (c : unit) (args : list tree) => (c, Node r args)) 20 tt = 8 /\ (forall n : nat, (n < 8 -> CapFormulaCex.res (tree_run_cap d8_g d8_tbl (Some n) [0] 20) = Driver.Throw) /\ (8 <= n -> tree_run_cap d8_g d8_tbl (Some n) [0] 20 = tree_run_cap d8_g d8_tbl None [0] 20 /\ CapFormulaCex.res (tree_run_cap d8_g d8_tbl (Some n) [0] 20) = Accept d8_tree)).
+Proof. exact @d8_min_capacity. Qed.
 Print Assumptions C12_least_sufficient_capacity_of_that_input.
 
 (* REFUTED also without empty rules when error recovery is used (known finding D16, found by this proof): S -> error a error b on ab needs 5 entries, the capacity is 4 - the error token takes a stack entry and consumes no byte *)
 Theorem C12_cstring_capacity_refuted_by_recovery :
-  analyze rec_raw = Some rec_g /\ (exists sts : list lrstate, gen rec_g = inl (sts, rec_tbl)) /\ validate rec_g (sts_of rec_g) rec_tbl = true /\ term_checks rec_g (sts_of rec_g) rec_tbl = true /\ empty_rules rec_g = 0 /\ DriverBasics.eof_err_not_shiftedb rec_g rec_tbl = true /\ no_error_symbol rec_g rec_tbl = false /\ no_shifterrb rec_tbl = false /\ LRSound.tokens_ok rec_g [0; 1] /\ cstring_cap rec_g (length [0; 1]) = 4 /\ res (tree_run_cap rec_g rec_tbl None [0; 1] 20) = Accept rec_tree /\ res (tree_run_cap rec_g rec_tbl (Some (cstring_cap rec_g (length [0; 1]))) [0; 1] 20) = Throw /\ max_height tree unit rec_g rec_tbl tree_opts [0; 1] id_lexer (fun (t _ _ : nat) (_ : spoint) => Leaf t) (fun _ : spoint => Leaf (err_idx rec_g)) (fun (r : nat) (c : unit) (args : list tree) => (c, Node r args)) 20 tt = 5.
-Proof. exact cstring_capacity_without_empty_rules_refuted_with_recovery. Qed.
+  analyze rec_raw = Some rec_g /\ (exists sts : list lrstate, gen rec_g = inl (sts, rec_tbl)) /\ validate rec_g (sts_of rec_g) rec_tbl = true /\ term_checks rec_g (sts_of rec_g) rec_tbl = true /\ empty_rules rec_g = 0 /\ DriverBasics.eof_err_not_shiftedb rec_g rec_tbl = true /\ no_error_symbol rec_g rec_tbl = false /\ no_shifterrb rec_tbl = false /\ LRSound.tokens_ok rec_g [0; 1] /\ cstring_cap rec_g (length [0; 1]) = 4 /\ CapFormulaCex.res (tree_run_cap rec_g rec_tbl None [0; 1] 20) = Accept rec_tree /\ CapFormulaCex.res (tree_run_cap rec_g rec_tbl (Some (cstring_cap rec_g (length [0; 1]))) [0; 1] 20) = Driver.Throw /\ max_height tree unit rec_g rec_tbl tree_opts [0; 1] id_lexer (fun (t _ _ : nat) (_ : spoint) => Leaf t) (fun _ : spoint => Leaf (err_idx rec_g)) (fun (r : nat) (c : unit) (args : list tree) => (c, Node r args)) 20 tt = 5.
+Proof. exact @cstring_capacity_without_empty_rules_refuted_with_recovery. Qed.
 Print Assumptions C12_cstring_capacity_refuted_by_recovery.
 
 (* what always suffices for an accepted input: input length + number of empty nodes of its tree + 1 *)
 Theorem C12_capacity_bound_from_the_tree :
   forall (g : grammar) (sts : list items) (tbl : LRGen.table) (w : list nat) (t : tree) (fuel : nat), validate_sound g sts tbl = true -> no_error_symbol g tbl = true -> LRSound.tokens_ok g w -> tree_run g tbl w fuel = Accept t -> forall n : nat, length w + empty_nodes t + 1 <= n -> tree_run_cap g tbl (Some n) w fuel = tree_run_cap g tbl None w fuel /\ fst (fst (tree_run_cap g tbl (Some n) w fuel)) = Accept t.
-Proof. exact capacity_from_tree_suffices. Qed.
+Proof. exact @capacity_from_tree_suffices. Qed.
 Print Assumptions C12_capacity_bound_from_the_tree.
